@@ -65,6 +65,9 @@ Definition depot_edges : list fedge :=
                    fe_cost := spawning_cost |}) depot_ids.
 
 Definition slot_allotted (m : node_id) : bool := existsb (fun '(x, _) => nid_eqb x m) slots.
+(* arcs carry at least as many vehicles as the largest allotted slot needs (since the repair "fix: flow arcs
+   capped at the formation limit ...") *)
+Definition arc_upper_bound : Z := fold_left Z.max (map snd slots) type_limit_or_100.
 (* arcs into [head] (a service trip, an allotted slot, or the end node of a depot) from its predecessors *)
 Definition arcs_into (head_id : node_id) (head_code : Z) : list fedge :=
   flat_map (fun pred =>
@@ -81,7 +84,7 @@ Definition arcs_into (head_id : node_id) (head_code : Z) : list fedge :=
          let idle_cost :=
            if is_depot (nd nw pred) || is_depot (nd nw head_id) then 0
            else match idle_time_between nw pred head_id with Ok (Len s) => s * c_idle P | _ => 0 end in
-         [ {| fe_tail := tc; fe_head := head_code; fe_lower := 0; fe_upper := type_limit_or_100;
+         [ {| fe_tail := tc; fe_head := head_code; fe_lower := 0; fe_upper := arc_upper_bound;
               fe_cost := dur_sec_or (dead_head_time_between nw pred head_id) planning_s * c_dh P + idle_cost |} ]
      end) (predecessors nw ty head_id).
 Definition connecting_edges : list fedge :=
